@@ -1,4 +1,4 @@
-import Proofs.Machine.Run
+import Proofs.Machine.Claims
 /-!
 C01 — every hunk line is shown exactly once, in order, with its text intact (unified view).
 
@@ -52,6 +52,28 @@ theorem hunk_line_exactly_once {cfg : Cfg} {m m' : M} {l : L} {b : Bool} (g : Go
   rcases handleHunkLine_spec e g with ⟨_, _, h⟩ | ⟨hb, _, s⟩
   · rw [hs] at h; cases h
   · exact ⟨hb, s.row⟩
+
+/-- `hunk_body_line_claimed`. In a git diff, in any unified hunk state, a line whose first column
+is `+`, `-` or blank — whatever follows it: `-- `, `++`, `@@`, `\\`, `diff --git …`, anything —
+(not matching the commit regex, not a 40-hex `Subproject commit` line) is claimed by
+`handle_hunk_line` and by no handler before it. With `hunk_line_exactly_once` this closes the gap
+between "claimed by the hunk handler" and "is a line of the hunk" for git unified diffs. -/
+theorem hunk_body_line_claimed (cfg : Cfg) (m : M) (l : L)
+    (hsrc : m.source = .gitDiff) (hst : isHunkState m.st = true) (hun : hunkCombinedParents m.st = none)
+    (hb : firstIs l isMarker) (hc : l.commitRe = false) (hsub : l.submodule = none) :
+    chain cfg l Generated.handlerOrder m =
+      (match handleHunkLine cfg m l with
+       | .ok (_, m') => .ok m'
+       | .error e => .error e) :=
+  Machine.hunk_body_line_claimed cfg m l hsrc hst hun hb hc hsub
+
+/-- marker-like bodies are ordinary hunk lines: the hypotheses are met by `--- a/old` (a removed
+line `-- a/old`) and by `+++ b/new` -/
+def markerLikeLine : L :=
+  { raw := [], text := "--- a/old".toList, graphemes := [], commitRe := false, blame := false,
+    grep := 0, submodule := none }
+
+example : firstIs markerLikeLine isMarker := ⟨'-', "-- a/old".toList, rfl, rfl⟩
 
 /-- the initial machine is `Good`, and `Good` is an invariant (so the hypotheses above are met by
 every reachable state) -/
